@@ -15,7 +15,7 @@ from . import core
 from .core import AnalysisError
 
 PROPERTIES = ['C01', 'C02', 'C03', 'C04', 'C05', 'C06', 'C07', 'C08', 'C09', 'C10', 'C11', 'C12',
-              'C13', 'C14', 'C15', 'C16', 'C17', 'C18', 'C19']
+              'C13', 'C14', 'C15', 'C16', 'C17', 'C18', 'C19', 'C20']
 
 
 def run_rules(prop, root):
